@@ -639,7 +639,18 @@ func (i *IRCServer) GetSessions() map[robust.Id]Session {
 	defer i.sessionsMu.RUnlock()
 	result := make(map[robust.Id]Session, len(i.sessions))
 	for id, session := range i.sessions {
-		result[id] = *session
+		s := *session
+		// The maps must be copied as well, otherwise the caller reads them
+		// without holding the lock while e.g. JOIN modifies them.
+		s.Channels = make(map[lcChan]bool, len(session.Channels))
+		for channel, value := range session.Channels {
+			s.Channels[channel] = value
+		}
+		s.invitedTo = make(map[lcChan]bool, len(session.invitedTo))
+		for channel, value := range session.invitedTo {
+			s.invitedTo[channel] = value
+		}
+		result[id] = s
 	}
 	return result
 }
